@@ -321,11 +321,17 @@ impl Upstream {
 /// C05 over a remote container: for every position k of one upstream request (after start-up) that is answered
 /// with 503, the server - once the upstream is healthy again - must serve every stored tile.
 fn c05_remote(ctx: &Arc<Ctx>, work: &Path, rt: &tokio::runtime::Runtime) {
+	// a remote .versatiles and a remote .pmtiles file (the latter without leaf directories: its leaf section is empty)
+	c05_remote_cont(ctx, work, rt, Cont::Versatiles);
+	c05_remote_cont(ctx, work, rt, Cont::Pmtiles);
+}
+
+fn c05_remote_cont(ctx: &Arc<Ctx>, work: &Path, rt: &tokio::runtime::Runtime, cont: Cont) {
 	use std::sync::atomic::Ordering;
 	let stored: Vec<Key> = vec![(0, 0, 0), (3, 1, 2), (3, 7, 7), (9, 255, 256), (9, 300, 300), (14, 8800, 5370)];
 	let tiles: TileMap = stored.iter().map(|k| (*k, codec::encode_with(1, &content_of(*k)))).collect();
 	let mut src = MemSource::new("m", tiles, TileFormat::PBF, TileCompression::Gzip);
-	let file = match write_container(rt, Cont::Versatiles, work, "remote", &mut src) {
+	let file = match write_container(rt, cont, work, "remote", &mut src) {
 		Ok(f) => f,
 		Err(e) => {
 			eprintln!("MACHINERY: cannot write the remote container: {e}");
@@ -333,7 +339,7 @@ fn c05_remote(ctx: &Arc<Ctx>, work: &Path, rt: &tokio::runtime::Runtime) {
 		}
 	};
 	let up = Upstream::start(std::fs::read(work.join(&file)).unwrap());
-	let arg = format!("[rem]http://127.0.0.1:{}/remote.versatiles", up.port);
+	let arg = format!("[rem]http://127.0.0.1:{}/{file}", up.port);
 	let script = |cl: &mut Client, judge: bool, k: i64| {
 		for key in stored.iter().chain([(9u8, 1u32, 1u32)].iter()) {
 			let target = format!("/tiles/rem/{}/{}/{}", key.0, key.1, key.2);
@@ -364,7 +370,7 @@ fn c05_remote(ctx: &Arc<Ctx>, work: &Path, rt: &tokio::runtime::Runtime) {
 	// fault-free run: how many upstream requests does start-up take, how many the script?
 	up.fail_at.store(-1, Ordering::SeqCst);
 	up.served.store(0, Ordering::SeqCst);
-	let (n0, n) = match Server::start(work, &[arg.clone()], "c05remote") {
+	let (n0, n) = match Server::start(work, &[arg.clone()], &format!("c05remote{}", cont.name())) {
 		Ok(server) => {
 			let n0 = up.served.load(Ordering::SeqCst);
 			let mut cl = Client::connect(server.port).expect("connect");
@@ -374,7 +380,8 @@ fn c05_remote(ctx: &Arc<Ctx>, work: &Path, rt: &tokio::runtime::Runtime) {
 			(n0, n)
 		}
 		Err(e) => {
-			ctx.outcome(&format!("remote source: server does not start against the local upstream ({})", e.chars().take(80).collect::<String>()));
+			// the same file is a valid local source, and the upstream answers range requests as web servers do
+			ctx.violation(&format!("a remote {} source cannot be added to the server", cont.name()), &format!("versatiles serve {arg}: {}", e.chars().take(300).collect::<String>()), json!({"mode": "remote upstream", "cont": cont}));
 			return;
 		}
 	};
@@ -382,7 +389,7 @@ fn c05_remote(ctx: &Arc<Ctx>, work: &Path, rt: &tokio::runtime::Runtime) {
 	for k in n0..n {
 		up.served.store(0, Ordering::SeqCst);
 		up.fail_at.store(k as i64, Ordering::SeqCst);
-		let Ok(server) = Server::start(work, &[arg.clone()], &format!("c05remote{k}")) else { continue };
+		let Ok(server) = Server::start(work, &[arg.clone()], &format!("c05remote{}{k}", cont.name())) else { continue };
 		let mut cl = Client::connect(server.port).expect("connect");
 		script(&mut cl, false, k as i64); // the run that meets the fault: not judged
 		if up.served.load(Ordering::SeqCst) <= k {
@@ -393,7 +400,7 @@ fn c05_remote(ctx: &Arc<Ctx>, work: &Path, rt: &tokio::runtime::Runtime) {
 		explored += 1;
 		ctx.nontrivial(fnv_str(&format!("remote-fault-{k}")));
 	}
-	ctx.extra("remote_upstream", json!({"upstream_requests_at_startup": n0, "upstream_requests_of_the_script": n - n0, "fault_positions_explored": explored}));
+	ctx.extra(&format!("remote_upstream_{}", cont.name()), json!({"upstream_requests_at_startup": n0, "upstream_requests_of_the_script": n - n0, "fault_positions_explored": explored}));
 	ctx.state(explored);
 }
 
@@ -1123,22 +1130,28 @@ pub fn c17_tilesjson(ctx: &Arc<Ctx>) -> Result<(), String> {
 	let mut args = vec![];
 	for (id, doc, f) in &docs {
 		let mut src = MemSource::new("m", tiles.clone(), *f, TileCompression::Uncompressed).with_tilejson(TileJSON::try_from(*doc).map_err(|e| e.to_string())?);
-		for cont in [Cont::Versatiles, Cont::Pmtiles] {
-			let name = format!("{id}{}", if cont == Cont::Versatiles { "v" } else { "p" });
+		for cont in [Cont::Versatiles, Cont::Pmtiles, Cont::Directory, Cont::Tar] {
+			let name = format!("{id}{}", match cont { Cont::Versatiles => "v", Cont::Pmtiles => "p", Cont::Directory => "d", _ => "t" });
 			let file = write_container(&rt, cont, &work.0, &name, &mut src)?;
 			args.push(format!("[{name}]{file}"));
 		}
 	}
-	let mut server = Server::start(&work.0, &args, "c17")?;
+	// the served bounds describe the served coordinates, also when the server flips / swaps them
+	for (fi, (flags, top)) in [(vec![], (9u32, 12u32)), (vec!["--flip-y"], (9, 19)), (vec!["--swap-xy"], (12, 9)), (vec!["--flip-y", "--swap-xy"], (19, 9))].into_iter().enumerate() {
+	let mut sargs = args.clone();
+	sargs.extend(flags.iter().map(|s| s.to_string()));
+	let mut server = Server::start(&work.0, &sargs, &format!("c17f{fi}"))?;
 	let mut cl = Client::connect(server.port)?;
 	for (id, doc, f) in &docs {
-		for suffix in ["v", "p"] {
+		for suffix in ["v", "p", "d", "t"] {
 			let sid = format!("{id}{suffix}");
 			for file in ["tiles.json", "meta.json"] {
 				let target = format!("/tiles/{sid}/{file}");
 				ctx.eval();
-				let case = json!({"kind": "tiles.json", "target": target});
-				match cl.request(&target, &[("Accept-Encoding", "gzip")])? {
+				let case = json!({"kind": "tiles.json", "target": target, "flags": flags});
+				let target = &format!("{target} (server flags {flags:?})")[..];
+				let path = target.split(' ').next().unwrap();
+				match cl.request(path, &[("Accept-Encoding", "gzip")])? {
 					Reply::Dropped(why) => ctx.violation("tiles.json request is answered by a dropped connection", &format!("{target}: {why}"), case),
 					Reply::Response(r) => {
 						if r.status != 200 {
@@ -1174,10 +1187,10 @@ pub fn c17_tilesjson(ctx: &Arc<Ctx>) -> Result<(), String> {
 						match v["bounds"].as_array().map(|a| a.iter().filter_map(|x| x.as_f64()).collect::<Vec<_>>()) {
 							Some(b) if b.len() == 4 && b[0] >= -180.0 && b[2] <= 180.0 && b[1] >= -90.0 && b[3] <= 90.0 && b[0] < b[2] && b[1] < b[3] => {
 								// every stored tile at the highest zoom lies inside the bounds
-								let t = TileCoord3 { x: 9, y: 12, z: 5 }.as_geo_bbox();
+								let t = TileCoord3 { x: top.0, y: top.1, z: 5 }.as_geo_bbox();
 								let (w, s, e, n) = (t.0.min(t.2), t.1.min(t.3), t.0.max(t.2), t.1.max(t.3));
 								if b[0] > w + 1e-6 || b[2] < e - 1e-6 || b[1] > s + 1e-6 || b[3] < n - 1e-6 {
-									ctx.violation("served tiles.json bounds do not contain the stored coverage", &format!("{target}: bounds {b:?}, tile (5,9,12) spans [{w},{s},{e},{n}]"), case.clone());
+									ctx.violation("served tiles.json bounds do not contain the stored coverage", &format!("{target}: bounds {b:?}, tile (5,{},{}) spans [{w},{s},{e},{n}]", top.0, top.1), case.clone());
 								}
 							}
 							other => ctx.violation("served tiles.json has no valid bounds", &format!("{target}: {other:?}"), case.clone()),
@@ -1191,7 +1204,10 @@ pub fn c17_tilesjson(ctx: &Arc<Ctx>) -> Result<(), String> {
 	if !server.alive() {
 		return Err("server died".into());
 	}
-	ctx.outcome_n("tiles.json / meta.json requests", (docs.len() * 4) as u64);
+	drop(cl);
+	drop(server);
+	}
+	ctx.outcome_n("tiles.json / meta.json requests", (docs.len() * 4 * 2 * 4) as u64);
 	Ok(())
 }
 
